@@ -136,6 +136,18 @@ Theorem C10_edit_while_detached_refuted :
 Proof. exists w_f3. destruct f3_refuted as [[H1 H2] H3]. auto. Qed.
 Print Assumptions C10_edit_while_detached_refuted.
 
+(* config.A = config.B (the tracked list read from B is assigned to A) leaves two independent options:
+   each SETCONF names exactly the option that was changed, the other one reads as before *)
+Theorem C10_copy_keeps_options_apart :
+  c10_scope w_copy = true /\ c10_known w_copy = false /\
+  exists snap tr, model_run w_copy = Some (true, snap, tr) /\ oracle w_copy tr = true
+    /\ concat (map o_wrote tr) = [bs "SETCONF Log=a Log=b"; bs "SETCONF Log=a Log=b Log=x"; bs "SETCONF ExitNodes=a";
+                                  bs "SETCONF ExitNodes=a"]
+    /\ nth_error (map o_res tr) 5 = Some (XVal (RList true [bs "a"; bs "b"]))
+    /\ nth_error (map o_res tr) 8 = Some (XVal (RList true [bs "a"; bs "b"; bs "x"])).
+Proof. exact copy_example. Qed.
+Print Assumptions C10_copy_keeps_options_apart.
+
 (* non-vacuity: a history outside the open classes with a rejected and an accepted save, quoting,
    case-insensitive names and in-place edits meets every hypothesis, and the oracle accepts it *)
 Example C10_nonvacuous :
